@@ -813,6 +813,12 @@ def small_const_iter(ex, st, s, cx):
     it = s.iter
     if isinstance(it, (ast.List, ast.Tuple)) and len(it.elts) <= 8:
         return list(it.elts)
+    if isinstance(it, ast.Name) and it.id not in st.vars:
+        # a module-level constant bound to a literal tuple / list of at most 8 entries
+        mod = ex.repo.modules.get(cx.fi.module) if cx.fi is not None else None
+        val = (mod or {}).get('consts', {}).get(it.id) if mod else None
+        if isinstance(val, (ast.List, ast.Tuple)) and len(val.elts) <= 8:
+            return list(val.elts)
     if isinstance(it, ast.Call) and isinstance(it.func, ast.Name) and it.func.id == 'range' \
             and all(isinstance(a, ast.Constant) for a in it.args):
         vals = list(range(*[a.value for a in it.args]))
